@@ -502,7 +502,8 @@ func (e *SEnv) fnPos() token.Pos {
 }
 
 func (e *SEnv) ident(name string) Val {
-	if e.localsFirst && e.fr != nil && e.fr.fn == e.fn {
+	if e.localsFirst && e.locSt == nil && e.fr != nil && e.fr.fn == e.fn {
+		// (inside old() a parameter name denotes its value at entry)
 		if _, isParam := e.fr.specVars[name]; isParam {
 			if v, ok := e.fr.lookupLocal(e.localState(), name, e.block); ok {
 				return v
